@@ -73,6 +73,20 @@ fn line(rng: &mut Rng, pts: &[Point2]) -> Ray2 {
         2 => c,
         _ => Point2::new(c.x + rng.range(-0.5, 0.5), c.y + rng.range(-0.5, 0.5)),
     };
+    // a line clipping a corner: two crossings a fraction of a micrometre to a few micrometres apart
+    // (further apart than the 1e-8 merge distance), one on each edge of the corner
+    if n >= 3 && rng.chance(0.12) {
+        let k = 1 + rng.below(n - 2);
+        let (a, b) = ((pts[k - 1] - pts[k]).normalize(), (pts[k + 1] - pts[k]).normalize());
+        let bis = a + b;
+        if bis.norm() > 1e-3 {
+            let bis = bis.normalize();
+            let u = Vector2::new(-bis.y, bis.x);
+            let eps = 10f64.powf(rng.range(-7.7, -5.0));
+            let origin = pts[k] + bis * eps - u * rng.range(0.5, 3.0);
+            return Ray2::new(origin, u * rng.range(0.3, 2.0));
+        }
+    }
     let dir = match rng.below(7) {
         0 => Vector2::new(1.0, 0.0) * rng.range(0.2, 3.0),
         1 => Vector2::new(0.0, -1.0) * rng.range(0.2, 3.0),
